@@ -58,10 +58,38 @@ func unmarshalFromYaml(yamlSpecs []byte) ([]OperationSpec, error) {
 			return nil, err
 		}
 
+		// yaml.v3 decodes numbers into int, but only values produced by the JSON decoder
+		// are valid in unstructured objects (DeepCopy panics on int).
+		if doc.Object, err = toJSONValue(doc.Object); err != nil {
+			return nil, err
+		}
+		if doc.MergePatch, err = toJSONValue(doc.MergePatch); err != nil {
+			return nil, err
+		}
+		if doc.JSONPatch, err = toJSONValue(doc.JSONPatch); err != nil {
+			return nil, err
+		}
+
 		specSlice = append(specSlice, doc)
 	}
 
 	return specSlice, nil
+}
+
+// toJSONValue converts a value decoded from YAML to the value the JSON decoder returns for the same document.
+func toJSONValue(v any) (any, error) {
+	if v == nil {
+		return nil, nil
+	}
+	data, err := json.Marshal(v)
+	if err != nil {
+		return nil, err
+	}
+	var res any
+	if err = json.Unmarshal(data, &res); err != nil {
+		return nil, err
+	}
+	return res, nil
 }
 
 func applyJQPatch(jqFilter string, fl filter.Filter, obj *unstructured.Unstructured) (*unstructured.Unstructured, error) {
